@@ -508,10 +508,11 @@ ghost sync_hdr Bool
 func litestream.(*DB).sync(db, ctx, checkpointing, exec, info, maxSyncWALBytes) (result, err)
   requires db != nil && exec != nil && !pub_renamed && !sync_hdr && pm_commitOff == 0 && !pm_lastCommit
   requires 32 <= info.offset && info.offset <= 4611686018427387904 && exec.pos.TXID < 9223372036854775807
+  assumes 1 <= db.pageSize && db.pageSize <= 65536     // A-pagesize
   modifies $heap, $alloc, file_written, path_synced, path_handle, file_closed, pub_dst, pub_renamed, enc_pages, enc_last, pm_commitOff, pm_lastCommit, sync_off, sync_sz, sync_hdr
   at litestream.DB.openLTXFile#all assert [C03.tmp-only] $arg0 == tmpFilename && tmpFilename == concat(filename, ".tmp")
   at ltx.NewEncoder#1 assert [C01.encoder-target] $arg0 == ltxFile && ltxFile != nil && path_handle[tmpFilename] == ltxFile
-  at ltx.(*Encoder).EncodeHeader#1 assert [C01.txid] $arg0.MinTXID == exec.pos.TXID + 1 && $arg0.MaxTXID == $arg0.MinTXID && filename != "" 
+  at ltx.(*Encoder).EncodeHeader#1 assert [C01.txid] $arg0.MinTXID == exec.pos.TXID + 1 && $arg0.MaxTXID == $arg0.MinTXID
   at ltx.(*Encoder).EncodeHeader#1 assert [C01.cursor] $arg0.WALOffset == info.offset && $arg0.WALSize == sz && sz >= 0 && (maxOffset > 0 ==> info.offset + sz == maxOffset) && (maxOffset == 0 ==> sz == 0) && $arg0.WALSalt1 == rd.salt1 && $arg0.WALSalt2 == rd.salt2
   at ltx.(*Encoder).EncodeHeader#1 assert [C01.commit] $arg0.Commit == commit && (walCommit > 0 ==> commit == walCommit) && $arg0.PageSize == db.pageSize
   at ltx.(*Encoder).EncodeHeader#1 set sync_off = $arg0.WALOffset
